@@ -8,6 +8,20 @@ VALIDATION_NAMES = {"missing_field", "invalid_range", "invalid_length", "invalid
 
 
 def gen_vectors(ctx, fam, npa=1, nra=1, deviations="{}", simulate=None, depth=None, label=None):
+    memo = getattr(ctx, "_gen_vectors_memo", None)
+    if memo is None:
+        memo = ctx._gen_vectors_memo = {}
+    mk = (fam, npa, nra, deviations, simulate, depth)
+    if simulate is None and mk in memo:         # the enumeration is a function of its constants: one TLC run per check run
+        return [dict(v) for v in memo[mk]]
+    out = _gen_vectors(ctx, fam, npa, nra, deviations, simulate, depth, label)
+    if simulate is None:
+        memo[mk] = out
+        return [dict(v) for v in out]
+    return out
+
+
+def _gen_vectors(ctx, fam, npa, nra, deviations, simulate, depth, label):
     cfg = "gen/Gen_HTTPTransport.cfg" if deviations == "{}" else "gen/Gen_HTTPTransport_dev.cfg"   # with a deviation the invariants are expected to fail
     r = ctx.gen("mc/MC_HTTPTransport", cfg,
                 consts={"Family": '"%s"' % fam, "NPA": npa, "NRA": nra, "Deviations": deviations},
